@@ -531,6 +531,50 @@ func Generate(r *rng.R, mode int) *Case {
 		c.Objs = append(c.Objs, op)
 		c.tag("observability-policy")
 	}
+	// policy piles: 3-5 policies of ONE kind on ONE target with overlapping fields. Conflict resolution must leave
+	// at most one policy per single-valued directive in every scope (server for gateway targets, location for routes).
+	if r.Chance(2, 5) {
+		kind, tns, tname := "Gateway", gwNS, gwName
+		if len(routes) > 0 && r.Chance(2, 3) {
+			t := rng.Pick(r, routes)
+			kind, tns, tname = t.kind, t.ns, t.name
+		}
+		n := r.Range(3, 5)
+		for i := 0; i < n; i++ {
+			csp := &ngfAPI.ClientSettingsPolicy{ObjectMeta: p.Meta(tns, fmt.Sprintf("pile-%d", i), next())}
+			csp.Spec.TargetRef = v1alpha2.LocalPolicyTargetReference{Group: "gateway.networking.k8s.io", Kind: gatewayv1.Kind(kind), Name: gatewayv1.ObjectName(tname)}
+			if r.Chance(2, 3) {
+				csp.Spec.Body = &ngfAPI.ClientBody{MaxSize: ptr(ngfAPI.Size(fmt.Sprintf("%dm", i+1)))}
+				if r.Chance(1, 3) {
+					csp.Spec.Body.Timeout = ptr(ngfAPI.Duration("30s"))
+				}
+			}
+			if csp.Spec.Body == nil || r.Chance(1, 3) {
+				ka := &ngfAPI.ClientKeepAlive{}
+				switch r.Intn(3) {
+				case 0:
+					ka.Requests = ptr(int32(100 + i))
+				case 1:
+					ka.Time = ptr(ngfAPI.Duration("1h"))
+				default:
+					ka.Timeout = &ngfAPI.ClientKeepAliveTimeout{Server: ptr(ngfAPI.Duration("75s"))}
+				}
+				csp.Spec.KeepAlive = ka
+			}
+			c.Objs = append(c.Objs, csp)
+		}
+		c.tag("csp-pile-on-" + strings.ToLower(kind))
+	}
+	if telemetry && len(routes) > 0 && r.Chance(1, 3) {
+		t := rng.Pick(r, routes)
+		for i := 0; i < r.Range(3, 4); i++ {
+			op := &ngfAPIv2.ObservabilityPolicy{ObjectMeta: p.Meta(t.ns, fmt.Sprintf("obs-pile-%d", i), next())}
+			op.Spec.TargetRefs = []v1alpha2.LocalPolicyTargetReference{{Group: "gateway.networking.k8s.io", Kind: gatewayv1.Kind(t.kind), Name: gatewayv1.ObjectName(t.name)}}
+			op.Spec.Tracing = &ngfAPIv2.Tracing{Strategy: ngfAPIv2.TraceStrategyRatio, Ratio: ptr(int32(10 * (i + 1))), SpanName: ptr(fmt.Sprintf("span-%d", i))}
+			c.Objs = append(c.Objs, op)
+		}
+		c.tag("observability-pile")
+	}
 	if len(haveSvc) > 0 && r.Chance(1, 3) {
 		for _, k := range []string{rng.Pick(r, svcKeys)} {
 			ns, name, _ := strings.Cut(k, "/")
